@@ -29,3 +29,8 @@ pub fn register_sigint() {
 pub fn was_interrupted() -> bool {
     INTERRUPTED.load(std::sync::atomic::Ordering::Relaxed)
 }
+
+#[cfg(n2_verif)]
+pub fn verif_set_interrupted(v: bool) {
+    INTERRUPTED.store(v, std::sync::atomic::Ordering::Relaxed);
+}
